@@ -1,6 +1,8 @@
 import RV.C03.Codec
 import RV.C03.Struct
+import RV.C03.Choice
 import RV.C03.NTLine
+import RV.C03.NTDoc
 import RV.C03.RefSplit
 /-
   C03 — executable model (re-exports the layers; see Codec.lean, Struct.lean).
